@@ -235,6 +235,15 @@ def _run_const(spec, ctx):
 
         for ptype in PTYPES:
             model = ConstantModel("constant")
+            if len(feats) >= 2 and rng.random() < 0.35:
+                # history of the model object: it was first used on the same features in another column order; the next personalisation
+                # must still pair every feature with its own column
+                try:
+                    cols = [c for c in df.columns if c not in feats]
+                    model.personalize(df[cols + feats[::-1]], "constant_prediction", prediction_type=IMPL_FALLBACK.get(ptype, DOC_NAME[ptype]))
+                    ctx.count("const_model_reused_after_other_column_order")
+                except Exception:
+                    model = ConstantModel("constant")
             ip = None
             names = [DOC_NAME[ptype]] + ([IMPL_FALLBACK[ptype]] if ptype in IMPL_FALLBACK else [])
             for spelled in names:
